@@ -105,11 +105,16 @@ def child_history(steps):
     """runs in a fresh child: steps = [(class spec, seq)] -> events"""
     evs = []
     all_specs = {}
+    shared = {}
     for step in steps:
         cspec, seq = step[0], step[1]
         circ = step[2] if len(step) > 2 else True
         cls = classes.build(cspec)
-        res = query(cls, record(seq, circular=circ))
+        if len(step) > 3 and step[3]:       # the very same record object as in the earlier steps (their wrappers are still alive)
+            rec = shared.setdefault((seq, circ), record(seq, circular=circ))
+        else:
+            rec = record(seq, circular=circ)
+        res = query(cls, rec)
         d = classes.describe(cls)
         rx = cls.__dict__.get("_regex")
         cached = dna.tokens(rx.pattern) if rx is not None else []
@@ -180,6 +185,21 @@ def run(tier, seed):
     for sa, sb in pairs:
         # prime A on a record it accepts, then ask B about a record B accepts, and about A's record
         histories.append([(sa, members[sa["name"]]), (sb, members[sb["name"]]), (sb, members[sa["name"]])])
+    # the same RECORD OBJECT shown to one class after the other (the earlier wrappers stay alive)
+    for sa, sb in pairs:
+        if rng.random() < (0.5 if q else 1.0):
+            histories.append([(sa, members[sa["name"]], True, True), (sb, members[sa["name"]], True, True), (sb, members[sb["name"]], True, True),
+                              (sa, members[sb["name"]], True, True)])
+    # user classes written next to a kit class whose signature spells the same letters in lower case
+    # (lower-case ambiguity letters are literal in a pattern, so the two classes are different)
+    for sp, c in kcs:
+        if classes.signature_typed(c) and any(ch in "NRYSWKMBDHV" for ch in "".join(c.signature)):
+            sib = {"sibling_of": sp, "sig": [x.lower() for x in c.signature], "name": "Lab" + sp["name"]}
+            rec = members[sp["name"]]
+            st = classes.build(sib).structure()
+            own = gen.instantiate(st, rng, runlen=rng.randint(2, 6)) + gen.rnd(rng.randint(2, 9), rng)
+            histories.append([(sib, rec), (sp, rec), (sp, own), (sib, own)])
+            histories.append([(sp, rec), (sib, rec), (sib, own), (sp, own)])
     # longer random histories, also with dynamically created subclasses
     for _ in range(40 if q else 600):
         h = []
@@ -189,7 +209,7 @@ def run(tier, seed):
             if rng.random() < 0.3:          # a record the class refuses because of an extra recognition site
                 pos = rng.randrange(len(rec))
                 rec = rec[:pos] + c.cutter.site + rec[pos:]
-            h.append((sp, gen.rotate(rec, rng.randrange(len(rec)))))
+            h.append((sp, gen.rotate(rec, rng.randrange(len(rec))) if rng.random() < 0.6 else rec, True, rng.random() < 0.5))
         histories.append(h)
     # the same letters typed as a linear and as a circular record by the same class, in both orders, with the
     # structure running through the origin (so that the two topologies legitimately differ)
@@ -220,12 +240,12 @@ def run(tier, seed):
         for step, ev in zip(h, evs):
             cspec, seq = step[0], step[1]
             circ = step[2] if len(step) > 2 else True
-            key = (cspec["name"], seq, circ)
+            key = (cspec.get("name") or repr(sorted(cspec.items(), key=str)), seq, circ)
             if key not in base:
                 base[key] = fresh_answer(cspec, seq, circ)
             ev["fresh"] = base[key]
         traces.append(evs)
-        run.distinct.add(tuple((st[0]["name"], st[1], len(st) < 3 or st[2]) for st in h))
+        run.distinct.add(tuple((st[0].get("name", "?"), st[1], len(st) < 3 or st[2], len(st) > 3 and st[3]) for st in h))
     run.add_sample({"history": [(st[0]["name"], st[1]) for st in histories[0]], "events": traces[0]})
     recipes = [{"fn": "history", "steps": h} for h in histories]
     run.validate("kit-histories", "Trace_Session", traces, recipes, sigfn=lambda c, ev, tr: "%s|%s" % (c, "first" if ev is tr[0] else "later"),
